@@ -266,3 +266,21 @@ PROPS["C17"] = {
     "assumptions": ["CorrectE: unwrap(wrap k) = k, dec(enc m) = m for the right keys"],
     "not_proved": ["ber2der idempotent on DER as a theorem over Obj", "PKCS#12 MAC / PBE as theorems (stdlib crypto)", "no-other-key as an unconditional statement"],
 }
+
+PROPS["C16"] = {
+    "modules": ["Gmsm.Props.C16"],
+    "theorems": [
+        "Props.C16.gate_iff", "Props.C16.altered_ticket_never_resumes", "Props.C16.retired_key_never_resumes",
+        "Props.C16.disabled_never_resumes", "Props.C16.unacceptable_certs_never_resume", "Props.C16.conn_resumed_iff", "Props.C16.conn_resumed",
+        "Props.C16.resumed_is_original", "Props.C16.valid_ticket_resumes", "Props.C16.inv_conn", "Props.C16.inv_step",
+        "Props.C16.inv_reach", "Props.C16.history_resumption_sound", "Props.C16.gm_default_never_resumes",
+        "Props.C16.put_length",
+    ],
+    "gen_items": [],
+    "level": "proof",
+    "claim": "A Lean state machine of resumption (server gate checkForResumption over decryptTicket, ticket issue and refresh under rotated keys, the client's offer and its LRU cache) with theorems for every history of any length: the gate is characterised outright (gate_iff: tickets enabled, bytes unaltered, sealed under a still-configured key, same version, suite offered by the client and listed and servable by the server, client-certificate policy compatible; the resumed state is the sealed one), so an altered ticket, a retired key, disabled tickets never resume; an invariant proved by induction over all histories of connections / key rotations / suite-list / ClientAuth / ticket-switch changes and every cache capacity (inv_reach) gives history_resumption_sound: whatever both ends report as resumed carries the master secret, version, suite and client certificates of a full handshake earlier in that history; valid_ticket_resumes is the completeness direction (an explicitly listed suite is resumed); gm_default_never_resumes explains the silent fallback under the default GMSSL configuration. The model is executed against real gmtls clients and servers on every run: generated histories of up to 7 connections to two servers sharing one client cache of capacity 1..3, with rotations, policy and suite changes, ticket tampering (bit flip at any byte, truncation, extension) in GMSSL and TLS 1.2 mode; per connection the real outcome (full / resumed-from-which-handshake / error) must equal the model's, and intrinsic oracles check that both ends agree on DidResume, version, suite, exported keying material, that data flows both ways, that a resumed connection reports the original session's client and server certificates and a refreshed ticket keeps the original secret.",
+    "note": "Partial: tickets are abstract in the model (key name, sealed state, intact flag); AES-CTR/HMAC-SHA256 of ticket.go and the byte-level sessionState codec are exercised by the tamper sweep, not proved. The full-handshake part of the model (suite choice, client-certificate policy) is the small subset needed to predict fallbacks; C06 covers negotiation. Versions other than GMSSL 1.1 and TLS 1.2 and renegotiation are not modelled.",
+    "trusted_base": ["Model.Resume tied to gmtls by the resume op (exact outcome sequence) in harness/c16.go; hook gmtls.VerifSessionInfo/VerifSessionWithTicket (read / re-ticket a cached client session)", "tlsDefaults in the model lists only the RSA-usable default suites the harness exercises"],
+    "assumptions": ["ticket MAC: an altered ticket never verifies (modelled by the intact flag; exercised by the tamper sweep)"],
+    "not_proved": ["sessionState marshal/unmarshal round trip as a theorem", "LRU order equals container/list behaviour (tied by the capacity 1..3 histories only)"],
+}
